@@ -206,7 +206,10 @@ Next ==
   /\ l < Len(Traces[tid].events)
   /\ LET ev == Traces[tid].events[l + 1]
          op == ev.op
-         res == Apply(op, st)
+         res0 == Apply(op, st)
+         \* fix_objective_as_constraint raises when the model has no optimum: then nothing may have changed
+         res == IF op.a = "FixObjective" /\ ev.raises # "none" /\ res0.raises = "none"
+                THEN [res0 EXCEPT !.st = st, !.raises = ev.raises] ELSE res0
          E == res.st
          \* out-of-scope argument combinations are not judged; whether a detached reaction object exists is
          \* known to the driver only
